@@ -1,6 +1,7 @@
 /- Line-protocol driver for the C18 model (NullServer vs. the wire). -/
 import Driver.Util
 import SpyneModel.Null
+import SpyneModel.NullSeq
 import SpyneModel.Generated.Facts18
 open Lean SpyneModel.Null Driver
 
@@ -116,6 +117,26 @@ def bodyStyleName : BodyStyle → String
   | .wrapped => "WRAPPED" | .empty => "EMPTY" | .bare => "BARE" | .outBare => "OUT_BARE"
   | .emptyOutBare => "EMPTY_OUT_BARE"
 
+def auxsOf (j : Json) : List Aux :=
+  (getArr j "auxs").toList.map fun a =>
+    (sigOf ((a.getObjVal? "sig").toOption.getD .null), implOf ((a.getObjVal? "script").toOption.getD .null))
+
+def recvJson (r : Res (List Val)) : Json := resJson (fun xs => Json.arr (xs.map valJson).toArray) r
+
+def callsOf (j : Json) : List Call :=
+  (getArr j "calls").toList.map fun c =>
+    ((getArr c "pos").toList.map valOf, kwOf c "kw")
+
+/-- results, received arguments and auxiliary runs of a call history on one kept object -/
+def seqSteps (s : Sig) (impl : List Val → Result) (auxs : List Aux) :
+    Option (List Val) → List Call → List Json
+  | _, [] => []
+  | kept, c :: cs =>
+    Json.mkObj [("recv", recvJson (nullRecvFrom F s kept c.1 c.2)),
+                ("out", resJson valJson (nullCallFrom F s impl auxs kept c.1 c.2)),
+                ("aux", Json.arr ((nullAuxRecv F s impl auxs kept c.1 c.2).map recvJson).toArray)]
+      :: seqSteps s impl auxs (slotsAfter F s kept c.1 c.2) cs
+
 def step (j : Json) : Json :=
   let s := sigOf ((j.getObjVal? "sig").toOption.getD .null)
   match getStr j "op" with
@@ -140,6 +161,18 @@ def step (j : Json) : Json :=
     let P := protoOf (getStr j "proto")
     Json.mkObj [("recv", resJson (fun xs => Json.arr (xs.map valJson).toArray) (wireRecvOf P id s pos kw)),
                 ("out", resJson valJson (wireCall F P id s impl pos kw))]
+  | "null.seq" =>
+    let impl := implOf ((j.getObjVal? "script").toOption.getD .null)
+    Json.mkObj [("steps", Json.arr (seqSteps s impl (auxsOf j) none (callsOf j)).toArray)]
+  | "wire.aux" =>
+    let impl := implOf ((j.getObjVal? "script").toOption.getD .null)
+    let pos := (getArr j "pos").toList.map valOf
+    let kw := kwOf j "kw"
+    let P := protoOf (getStr j "proto")
+    let auxs := auxsOf j
+    Json.mkObj [("recv", recvJson (wireRecvOf P id s pos kw)),
+                ("out", resJson valJson (wireCallAux F P id s impl auxs pos kw)),
+                ("aux", Json.arr ((wireAuxRecv F P id s impl auxs pos kw).map recvJson).toArray)]
   | op => Json.mkObj [("driver_error", Json.str s!"unknown op {op}")]
 
 def main : IO Unit := Driver.run step
